@@ -432,6 +432,10 @@ func (u *Unit) execCallback(p *Path, x *ssa.Call) {
 		if !api.W[cn] {
 			p.assume(u.frameFormula(comp, pre.Get(u.cx, cn), nv, nil, allocBefore, false))
 		}
+		// heap reference invariant: whatever the callback stored is allocated
+		if inv := u.refInvariant(cn, nv, na); inv != nil {
+			p.assume(inv)
+		}
 	}
 	// nested callbacks may run other callbacks, never this count backwards
 	nc := u.cx.Fresh("calls", enc.comps["calls"].Sort)
@@ -440,6 +444,22 @@ func (u *Unit) execCallback(p *Path, x *ssa.Call) {
 	p.assume(Forall([]*Term{g}, Ge(Select(nc, g), Select(p.st.comps["calls"], g)), []*Term{Select(nc, g)}))
 	p.assume(Eq(Select(nc, f), Select(p.st.comps["calls"], f))) // assumption: the callback does not re-enter itself
 	p.st.comps["calls"] = nc
+	// assumed contract of callbacks: they change the Code tree only through the exported API, every function of
+	// which preserves the tree invariant treeOK (obligations <builder>#post.tree, pkg#tree-invariant-api)
+	if _, has := u.cx.spec.recdefs["treeOK"]; has {
+		if e, err := ParseExpr("treeOK()"); err == nil {
+			before, err1 := (&Env{cx: u.cx, st: pre, epochSt: u.cx.snapshotIfChanged(pre), epochSplit: true}).EvalBool(e)
+			after, err2 := (&Env{cx: u.cx, st: p.st, epochSt: u.cx.snapshotIfChanged(p.st), epochSplit: true}).EvalBool(e)
+			if err1 == nil && err2 == nil {
+				// the tree handed to the callback is well-formed (obligation), and so is the tree it leaves
+				o := u.ob(fmt.Sprintf("callback.tree.%s", u.callOrdinal(x)), "pre", []string{"C02"}, "treeOK() holds when the callback is called")
+				o.Unfold = []string{"treeOK"}
+				u.check(p, o, before)
+				p.assume(before)
+				p.assume(after)
+			}
+		}
+	}
 	sig := x.Call.Signature()
 	var rs []*Term
 	for i := 0; i < sig.Results().Len(); i++ {
@@ -447,6 +467,17 @@ func (u *Unit) execCallback(p *Path, x *ssa.Call) {
 		r := u.cx.Fresh("cbret", enc.SortOf(T)).WithT(T)
 		rs = append(rs, r)
 		u.assumeWF(p, r, T)
+		// documented precondition of LitFunc (the only callback that returns a value of any type): the value
+		// is of a type Lit supports
+		if r.Sort == "Any" {
+			if _, ok := u.cx.spec.defs["supportedLit"]; ok {
+				if e, err := ParseExpr("supportedLit(cbr)"); err == nil {
+					if g, err := (&Env{cx: u.cx, st: p.st, vars: map[string]*Term{"cbr": r}}).EvalBool(e); err == nil {
+						p.assume(g)
+					}
+				}
+			}
+		}
 	}
 	// ghost: remember what the callback returned
 	if len(rs) == 1 {
